@@ -10,6 +10,7 @@ import (
 	"strconv"
 	"strings"
 	"sync"
+	"sync/atomic"
 
 	"github.com/graphql-go/graphql"
 	"github.com/graphql-go/graphql/language/ast"
@@ -39,33 +40,36 @@ type StampV struct {
 
 // Fault kinds (fault plan values).
 const (
-	FErr        = "err"          // resolver returns (nil, error)
-	FValErr     = "valerr"       // resolver returns (value, error)
-	FPanicErr   = "panic_err"    // panic(error)
-	FPanicStr   = "panic_str"    // panic("string")
-	FPanicInt   = "panic_int"    // panic(42)
-	FNil        = "nil"          // returns nil
-	FTypedNil   = "typednil"     // returns (*Tok)(nil) / (*string)(nil)
-	FThunk      = "thunk"        // returns a thunk that yields the normal value
-	FThunkErr   = "thunk_err"    // thunk returns an error
-	FThunkPanic = "thunk_panic"  // thunk panics
-	FThunkNil   = "thunk_nil"    // thunk returns nil
-	FThunkBad   = "thunk_badsig" // a func of the wrong signature
-	FWrongKind  = "wrongkind"    // a Go value of the wrong kind for the position
-	FNaN        = "nan"          // NaN for a numeric leaf
-	FBigInt     = "bigint"       // out-of-range integer for Int
-	FBadEnum    = "badenum"      // unknown internal enum value
-	FNotIter    = "notiter"      // non-iterable for a list position
-	FRTNil      = "rt_nil"       // ResolveType returns nil
-	FRTWrong    = "rt_wrong"     // ResolveType returns a non-possible object type
-	FRTPanic    = "rt_panic"     // ResolveType panics
-	FITFalse    = "it_false"     // IsTypeOf returns false
-	FITPanic    = "it_panic"     // IsTypeOf panics
-	FSerNil     = "ser_nil"      // custom scalar Serialize returns nil
-	FSerPanic   = "ser_panic"    // custom scalar Serialize panics
-	FHostile    = "hostile"      // resolver mutates the Args map it was handed
-	FErrMsg     = "errmsg:"      // prefix: resolver returns (nil, errors.New(rest))
-	FObserveCtx = "observe"      // resolver returns ctx.Err() if the context is done
+	FErr         = "err"          // resolver returns (nil, error)
+	FValErr      = "valerr"       // resolver returns (value, error)
+	FPanicErr    = "panic_err"    // panic(error)
+	FPanicStr    = "panic_str"    // panic("string")
+	FPanicInt    = "panic_int"    // panic(42)
+	FNil         = "nil"          // returns nil
+	FTypedNil    = "typednil"     // returns (*Tok)(nil) / (*string)(nil)
+	FThunk       = "thunk"        // returns a thunk that yields the normal value
+	FThunkErr    = "thunk_err"    // thunk returns an error
+	FThunkPanic  = "thunk_panic"  // thunk panics
+	FThunkNil    = "thunk_nil"    // thunk returns nil
+	FThunkBad    = "thunk_badsig" // a func of the wrong signature
+	FWrongKind   = "wrongkind"    // a Go value of the wrong kind for the position
+	FNaN         = "nan"          // NaN for a numeric leaf
+	FBigInt      = "bigint"       // out-of-range integer for Int
+	FBadEnum     = "badenum"      // unknown internal enum value
+	FNotIter     = "notiter"      // non-iterable for a list position
+	FRTNil       = "rt_nil"       // ResolveType returns nil
+	FRTWrong     = "rt_wrong"     // ResolveType returns a non-possible object type
+	FRTPanic     = "rt_panic"     // ResolveType panics
+	FITFalse     = "it_false"     // IsTypeOf returns false
+	FITPanic     = "it_panic"     // IsTypeOf panics
+	FSerNil      = "ser_nil"      // custom scalar Serialize returns nil
+	FSerPanic    = "ser_panic"    // custom scalar Serialize panics
+	FHostile     = "hostile"      // resolver mutates the Args map it was handed
+	FErrMsg      = "errmsg:"      // prefix: resolver returns (nil, errors.New(rest))
+	FElemPanic   = "elem_panic"   // list of leaves: element 1 makes the leaf's Serialize panic
+	FElemThunk   = "elem_thunk"   // list: every element is a thunk yielding the normal element
+	FHostileVars = "hostile_vars" // resolver overwrites the entries of Info.VariableValues
+	FObserveCtx  = "observe"      // resolver returns ctx.Err() if the context is done
 )
 
 // ReqCtx is the per-request instrumentation state, carried by the context.
@@ -180,6 +184,10 @@ type World struct {
 	SubSource func(p graphql.ResolveParams) (interface{}, error)
 	// possible concrete types per abstract type name, in declaration order
 	Possible map[string][]string
+	// GateScalars makes the custom scalar's ParseValue a scheduling point.
+	GateScalars bool
+	// NoCtx counts callbacks that were invoked without the request's context.
+	NoCtx atomic.Int64
 }
 
 // internal enum values are deliberately not the names
@@ -271,6 +279,10 @@ func NewWorld(id string, exts ...graphql.Extension) *World {
 			return nil
 		},
 		ParseValue: func(v interface{}) interface{} {
+			// variable coercion of a custom scalar is user code that may block
+			if cs := Cur(); cs != nil && w.GateScalars {
+				cs.Gate("", "scalar:parsevalue", "")
+			}
 			if s, ok := v.(string); ok {
 				return StampV{S: s}
 			}
@@ -315,7 +327,9 @@ func NewWorld(id string, exts ...graphql.Extension) *World {
 			Fields: graphql.FieldsThunk(func() graphql.Fields {
 				fs := fields()
 				for fname, f := range fs {
-					f.Resolve = w.resolver(name, fname)
+					if f.Resolve == nil {
+						f.Resolve = w.resolver(name, fname)
+					}
 				}
 				return fs
 			}),
@@ -398,6 +412,7 @@ func NewWorld(id string, exts ...graphql.Extension) *World {
 			"li":   &graphql.Field{Type: graphql.NewList(graphql.Int)},
 			"liNN": &graphql.Field{Type: graphql.NewNonNull(graphql.NewList(graphql.NewNonNull(graphql.Int)))},
 			"le":   &graphql.Field{Type: graphql.NewList(w.Kind)},
+			"lst":  &graphql.Field{Type: graphql.NewList(w.Stamp)},
 			"sub":  &graphql.Field{Type: leafy},
 		}
 	})
@@ -419,6 +434,17 @@ func NewWorld(id string, exts ...graphql.Extension) *World {
 		}
 	})
 
+	// Plain has no resolvers: its fields go through graphql.DefaultResolveFn
+	// (struct fields by name or tag, pointers, maps, map entries that are funcs).
+	plain := graphql.NewObject(graphql.ObjectConfig{
+		Name: "Plain",
+		Fields: graphql.Fields{
+			"name": &graphql.Field{Type: graphql.String},
+			"n":    &graphql.Field{Type: graphql.Int},
+			"tag":  &graphql.Field{Type: graphql.String},
+		},
+	})
+	w.Obj["Plain"] = plain
 	echoArgs := graphql.FieldConfigArgument{
 		"s":  &graphql.ArgumentConfig{Type: graphql.String},
 		"i":  &graphql.ArgumentConfig{Type: graphql.Int, DefaultValue: 7},
@@ -432,26 +458,33 @@ func NewWorld(id string, exts ...graphql.Extension) *World {
 	}
 	rootFields := func() graphql.Fields {
 		return graphql.Fields{
-			"node":    &graphql.Field{Type: w.Node, Args: graphql.FieldConfigArgument{"as": &graphql.ArgumentConfig{Type: graphql.String}, "id": &graphql.ArgumentConfig{Type: graphql.ID}}},
-			"nodes":   &graphql.Field{Type: graphql.NewList(w.Node), Args: graphql.FieldConfigArgument{"n": &graphql.ArgumentConfig{Type: graphql.Int, DefaultValue: 2}, "as": &graphql.ArgumentConfig{Type: graphql.String}}},
-			"u":       &graphql.Field{Type: w.U, Args: graphql.FieldConfigArgument{"as": &graphql.ArgumentConfig{Type: graphql.String}}},
-			"a":       &graphql.Field{Type: w.Obj["A"]},
-			"b":       &graphql.Field{Type: w.Obj["B"]},
-			"c":       &graphql.Field{Type: w.Obj["C"]},
-			"leafy":   &graphql.Field{Type: leafy},
-			"leafyNN": &graphql.Field{Type: graphql.NewNonNull(leafy)},
-			"deep":    &graphql.Field{Type: deep},
-			"deepNN":  &graphql.Field{Type: graphql.NewNonNull(deep)},
-			"echo":    &graphql.Field{Type: graphql.String, Args: echoArgs},
-			"echo2":   &graphql.Field{Type: graphql.String, Args: echoArgs},
-			"x1":      &graphql.Field{Type: graphql.String},
-			"x2":      &graphql.Field{Type: graphql.String},
-			"x3":      &graphql.Field{Type: graphql.Int},
-			"x4":      &graphql.Field{Type: graphql.String},
-			"x5":      &graphql.Field{Type: graphql.String},
-			"x6":      &graphql.Field{Type: graphql.String},
-			"x7":      &graphql.Field{Type: graphql.String},
-			"x8":      &graphql.Field{Type: graphql.String},
+			"node":     &graphql.Field{Type: w.Node, Args: graphql.FieldConfigArgument{"as": &graphql.ArgumentConfig{Type: graphql.String}, "id": &graphql.ArgumentConfig{Type: graphql.ID}}},
+			"nodes":    &graphql.Field{Type: graphql.NewList(w.Node), Args: graphql.FieldConfigArgument{"n": &graphql.ArgumentConfig{Type: graphql.Int, DefaultValue: 2}, "as": &graphql.ArgumentConfig{Type: graphql.String}}},
+			"u":        &graphql.Field{Type: w.U, Args: graphql.FieldConfigArgument{"as": &graphql.ArgumentConfig{Type: graphql.String}}},
+			"a":        &graphql.Field{Type: w.Obj["A"]},
+			"b":        &graphql.Field{Type: w.Obj["B"]},
+			"c":        &graphql.Field{Type: w.Obj["C"]},
+			"leafy":    &graphql.Field{Type: leafy},
+			"leafyNN":  &graphql.Field{Type: graphql.NewNonNull(leafy)},
+			"deep":     &graphql.Field{Type: deep},
+			"deepNN":   &graphql.Field{Type: graphql.NewNonNull(deep)},
+			"echo":     &graphql.Field{Type: graphql.String, Args: echoArgs},
+			"echo2":    &graphql.Field{Type: graphql.String, Args: echoArgs},
+			"plainA":   &graphql.Field{Type: plain, Resolve: func(p graphql.ResolveParams) (interface{}, error) { return plainRecA(), nil }},
+			"plainB":   &graphql.Field{Type: plain, Resolve: func(p graphql.ResolveParams) (interface{}, error) { return plainRecB(), nil }},
+			"plainPtr": &graphql.Field{Type: plain, Resolve: func(p graphql.ResolveParams) (interface{}, error) { return plainRecPtr(), nil }},
+			"plainMap": &graphql.Field{Type: plain, Resolve: func(p graphql.ResolveParams) (interface{}, error) {
+				return map[string]interface{}{"name": "map-name", "n": 3, "tag": func() interface{} { return "map-tag-fn" }}, nil
+			}},
+			"plainTagged": &graphql.Field{Type: plain, Resolve: func(p graphql.ResolveParams) (interface{}, error) { return plainRecTagged(), nil }},
+			"x1":          &graphql.Field{Type: graphql.String},
+			"x2":          &graphql.Field{Type: graphql.String},
+			"x3":          &graphql.Field{Type: graphql.Int},
+			"x4":          &graphql.Field{Type: graphql.String},
+			"x5":          &graphql.Field{Type: graphql.String},
+			"x6":          &graphql.Field{Type: graphql.String},
+			"x7":          &graphql.Field{Type: graphql.String},
+			"x8":          &graphql.Field{Type: graphql.String},
 		}
 	}
 	query := mkObj("Query", nil, false, rootFields)
@@ -545,6 +578,7 @@ func (w *World) resolverInner(coord string) graphql.FieldResolveFn {
 		rc := ReqOf(p.Context)
 		path := PathString(p.Info.Path)
 		if rc == nil {
+			w.NoCtx.Add(1)
 			return w.gen(nil, p.Info.ReturnType, coord, path, p.Args), nil
 		}
 		rc.mu.Lock()
@@ -641,11 +675,45 @@ func (w *World) resolverInner(coord string) graphql.FieldResolveFn {
 		case FSerNil, FSerPanic:
 			return StampV{S: path, Mode: fault}, nil
 		case FHostile:
+			// the value reflects the arguments as received; then the resolver
+			// scribbles over the map it was handed (it owns it)
+			v := val()
 			for k := range p.Args {
 				p.Args[k] = "POISON"
 			}
 			p.Args["__poison"] = rc.Task
-			return val(), nil
+			return v, nil
+		case FElemPanic:
+			v := val()
+			if l, ok := v.([]interface{}); ok && len(l) > 1 {
+				switch namedOf(p.Info.ReturnType.String()) {
+				case "Kind":
+					l[1] = []int{1} // unhashable: the enum's value lookup panics
+				case "Stamp":
+					l[1] = StampV{S: path, Mode: FSerPanic}
+				}
+			}
+			return v, nil
+		case FElemThunk:
+			v := val()
+			if l, ok := v.([]interface{}); ok {
+				for i := range l {
+					elem := l[i]
+					idx := i
+					l[i] = func() (interface{}, error) {
+						rc.logf("T+" + path + "." + strconv.Itoa(idx))
+						defer rc.logf("T-" + path + "." + strconv.Itoa(idx))
+						return elem, nil
+					}
+				}
+			}
+			return v, nil
+		case FHostileVars:
+			v := val()
+			for k := range p.Info.VariableValues {
+				p.Info.VariableValues[k] = "POISON" + strconv.Itoa(rc.Req) + rc.Task
+			}
+			return v, nil
 		case FObserveCtx:
 			if err := p.Context.Err(); err != nil {
 				return nil, err
@@ -668,7 +736,11 @@ func (w *World) wrongKind(t graphql.Output) interface{} {
 func (w *World) resolveType(p graphql.ResolveTypeParams, abstract string) *graphql.Object {
 	rc := ReqOf(p.Context)
 	path := PathString(p.Info.Path)
+	if rc == nil {
+		w.NoCtx.Add(1)
+	}
 	if rc != nil {
+		rc.checkCompleted("ResolveType", p.Value, path, p.Info)
 		rc.logf("RT:" + path)
 		w.gate(rc, "rtype:"+abstract, path)
 		if f := rc.Faults["RT@"+path]; f != "" {
@@ -697,7 +769,11 @@ func (w *World) resolveType(p graphql.ResolveTypeParams, abstract string) *graph
 func (w *World) isTypeOf(p graphql.IsTypeOfParams, name string) bool {
 	rc := ReqOf(p.Context)
 	path := PathString(p.Info.Path)
+	if rc == nil {
+		w.NoCtx.Add(1)
+	}
 	if rc != nil {
+		rc.checkCompleted("IsTypeOf", p.Value, path, p.Info)
 		rc.logf("IT:" + name + "@" + path)
 		if f := rc.Faults["IT@"+path]; f != "" {
 			switch f {
@@ -822,4 +898,92 @@ func isLeafNamed(t graphql.Type) bool {
 		return true
 	}
 	return false
+}
+
+// checkCompleted verifies what a type resolver / isTypeOf function is told: the
+// value being completed is the token produced at (or, under a list, below) the
+// field's response path by this execution, and the info is the field's.
+func (rc *ReqCtx) checkCompleted(who string, value interface{}, path string, info graphql.ResolveInfo) {
+	if rc.Check == nil {
+		return
+	}
+	var tok Tok
+	switch v := value.(type) {
+	case Tok:
+		tok = v
+	case *Tok:
+		if v != nil {
+			tok = *v
+		}
+	default:
+		return // a fault-injected non-token value
+	}
+	base, _, _ := strings.Cut(tok.P, "~")
+	if base != path && !strings.HasPrefix(tok.P, path+".") && !strings.HasPrefix(tok.P, path+"~") {
+		rc.bad(fmt.Sprintf("%s: %s was handed the value produced at %q", path, who, tok.P))
+	}
+	if tok.R != rc.Req {
+		rc.bad(fmt.Sprintf("%s: %s was handed a value of execution %d, this is execution %d", path, who, tok.R, rc.Req))
+	}
+	if info.FieldName == "" || len(info.FieldASTs) == 0 || lastSegOf(path) != respKey(info.FieldASTs[0]) {
+		rc.bad(fmt.Sprintf("%s: %s received an info that does not describe the field (name %q)", path, who, info.FieldName))
+	}
+}
+
+func lastSegOf(p string) string {
+	if i := strings.LastIndexByte(p, '.'); i >= 0 {
+		return p[i+1:]
+	}
+	return p
+}
+
+func respKey(f *ast.Field) string {
+	if f == nil {
+		return ""
+	}
+	if f.Alias != nil && f.Alias.Value != "" {
+		return f.Alias.Value
+	}
+	if f.Name != nil {
+		return f.Name.Value
+	}
+	return ""
+}
+
+// Two distinct struct types that print identically ("sim.rec") but lay their
+// fields out differently, a pointer source and a tag-driven source.
+func plainRecA() interface{} {
+	type rec struct {
+		Name string
+		N    int
+		Tag  string
+	}
+	return rec{Name: "a-name", N: 1, Tag: "a-tag"}
+}
+
+func plainRecB() interface{} {
+	type rec struct {
+		Tag  string
+		N    int
+		Name string
+	}
+	return rec{Tag: "b-tag", N: 2, Name: "b-name"}
+}
+
+func plainRecPtr() interface{} {
+	type rec struct {
+		N    int
+		Name string
+		Tag  string
+	}
+	return &rec{N: 4, Name: "ptr-name", Tag: "ptr-tag"}
+}
+
+func plainRecTagged() interface{} {
+	type rec struct {
+		A string `json:"name"`
+		B int    `graphql:"n"`
+		C string `json:"tag,omitempty"`
+	}
+	return rec{A: "tagged-name", B: 5, C: "tagged-tag"}
 }
